@@ -415,6 +415,80 @@ def check_rl(case):
         if wire is None:
             return good(nt=False, labels=labels)
         expect_ok = False
+    elif m == "long_pad_forged" and s.kind == "cbc" and (3, 0) < v < (3, 4):
+        # legal long padding, one bit of the record flipped in flight: the
+        # MAC (wherever it sits behind up to 255 padding bytes) must fail
+        bs = s.block
+        unp = len(msg) + (0 if etm else s.mac_len)
+        base = (bs - 1 - unp % bs) % bs
+        room = (255 - base) // bs
+        sel = case["pad"]
+        kw["pad_len"] = base + bs * (room - (sel % 3 if room >= 2 else 0))
+        w = bytearray(rr.protect(peer, 23, msg, **kw))
+        body_len = len(w) - 5
+        # positions: first body byte (IV or first block), a byte in the
+        # middle of the data, or a byte drawn anywhere before the last two
+        # blocks (flipping those could yield another valid padding only
+        # with a valid MAC, which stays impossible - but keep the claim
+        # simple: data / MAC region)
+        lim = max(1, body_len - (kw["pad_len"] + 1) - bs -
+                  (s.mac_len if etm else 0))
+        pos = [0, lim // 2, (sel // 3) % lim][sel % 3] if lim > 1 else 0
+        w[5 + pos] ^= 1 << (sel % 8)
+        wire = bytes(w)
+        expect_ok = False
+    elif m == "etm_degenerate" and s.kind == "cbc" and etm and v < (3, 4):
+        # insider with the MAC key: correct MAC over a ciphertext that is
+        # too short to hold padding (IV only / nothing / one block whose
+        # padding byte overruns)
+        bs = s.block
+        iv = bytes((peer.seq * 7 + i) & 0xff for i in range(bs)) \
+            if v >= (3, 2) else b""
+        nblocks = case["pad"] % 2
+        if nblocks:
+            ctb = peer._cbc(iv or peer.chain_iv,
+                            b"\x00" * (bs - 1) + bytes([bs + case["pad"] %
+                                                        200]), True)
+        else:
+            ctb = b""
+        enc = iv + ctb
+        body = enc + peer._mac(23, enc)
+        peer.seq += 1
+        wire = bytes([23, v[0], v[1]]) + len(body).to_bytes(2, "big") + body
+        expect_ok = False
+    elif m == "mte_short" and s.kind == "cbc" and not etm and v < (3, 4):
+        # ciphertext of one or two blocks: no room for MAC + padding
+        bs = s.block
+        iv = bytes((peer.seq * 7 + i) & 0xff for i in range(bs)) \
+            if v >= (3, 2) else b""
+        n = 1 + case["pad"] % 2
+        if n * bs >= s.mac_len + 1:
+            n = 1
+        if n * bs >= s.mac_len + 1:
+            return good(nt=False, labels=labels + ["not-applicable"])
+        ptb = b"\x00" * (n * bs - 1) + bytes([case["pad"] % (n * bs)])
+        enc = peer._cbc(iv or peer.chain_iv, ptb, True)
+        body = iv + enc
+        peer.seq += 1
+        wire = bytes([23, v[0], v[1]]) + len(body).to_bytes(2, "big") + body
+        expect_ok = False
+    elif m == "ssl3_pad_over_block" and s.kind == "cbc" and v == (3, 0):
+        # SSLv3: padding may not exceed one block (good MAC, arbitrary
+        # padding content, length byte in [block, 255] where it fits)
+        bs = s.block
+        unp = len(msg) + s.mac_len
+        base = (bs - 1 - unp % bs) % bs
+        extra = 1 + case["pad"] % 3
+        pl = base + bs * extra
+        if pl > 255:
+            return good(nt=False, labels=labels + ["not-applicable"])
+        mac = peer._mac(23, msg)
+        padding = prg(b"A-pad", pl) + bytes([pl])
+        enc = peer._cbc(peer.chain_iv, msg + mac + padding, True)
+        peer.chain_iv = enc[-bs:]
+        peer.seq += 1
+        wire = bytes([23, 3, 0]) + len(enc).to_bytes(2, "big") + enc
+        expect_ok = False
     elif m == "wrong_seq":
         peer.seq += 1 + case["pad"] % 3
         wire = rr.protect(peer, 23, msg)
@@ -524,10 +598,13 @@ def caseA(draw, tier):
             "m": draw(st.sampled_from(
                 ["legal_pad"] * 4 + ["inner_zero", "outer_type",
                                      "outer_version", "bad_pad", "bad_pad",
-                                     "wrong_seq", "other_type"])),
-            "lens": draw(st.lists(st.sampled_from([0, 1, 15, 16, 17, 47,
-                                                   200]),
-                                  min_size=1, max_size=3)),
+                                     "wrong_seq", "other_type",
+                                     "long_pad_forged", "long_pad_forged",
+                                     "etm_degenerate", "mte_short",
+                                     "ssl3_pad_over_block"])),
+            "lens": draw(st.lists(st.one_of(
+                st.sampled_from([0, 1, 15, 16, 17, 47, 200]),
+                st.integers(0, 300)), min_size=1, max_size=3)),
             "pad": draw(st.integers(0, 600)),
             "salt": draw(st.integers(0, 5))}
 
@@ -583,6 +660,14 @@ def explicit(tier, seed):
                     yield c
         if iana.SUITES[sid].draft:
             continue
+        if iana.SUITES[sid].kind == "cbc" and v < (3, 4):
+            for j, ln in enumerate((44, 47, 60, 33, 0, 108)):
+                for m in ("long_pad_forged", "etm_degenerate", "mte_short",
+                          "ssl3_pad_over_block"):
+                    yield {"level": "A", "suite": sid, "ver": list(v),
+                           "etm": etm, "client": bool(k % 2), "m": m,
+                           "lens": [5, ln], "pad": k + 3 * j + j // 3,
+                           "salt": seed % 4}
         for m in ("legal_pad", "bad_pad", "wrong_seq", "other_type",
                   "inner_zero", "outer_type", "overflow", "overflow13",
                   "max_record"):
